@@ -34,13 +34,16 @@ type Activity struct {
 	DoubleSpend bool
 	// Pending Qi txs submitted (hash -> tx) for monitors
 	QiSent map[common.Hash]*types.Transaction
+	// TrimRace: spend low-denomination outputs exactly in the block that trims them
+	TrimRace bool
+	created  map[string]uint64 // outpoint -> zone height of the block whose Qi tx created it
 }
 
 // NewActivity creates a wallet (nQuai, nQi keys), funds the Quai keys at
 // genesis and starts a Net whose miner coinbases are wallet keys.
 func NewActivity(r *rand.Rand, opts Options) (*Activity, error) {
 	w := NewWallet(r, 4, 10)
-	fund := new(big.Int).Mul(big.NewInt(1e18), big.NewInt(1e7))
+	fund := new(big.Int).Mul(big.NewInt(1e18), big.NewInt(1e11))
 	opts.GenAllocs = w.GenAllocs(fund)
 	if opts.QuaiCoinbase.Equal(common.Address{}) {
 		opts.QuaiCoinbase = w.Quai[0].Addr
@@ -53,7 +56,7 @@ func NewActivity(r *rand.Rand, opts Options) (*Activity, error) {
 		return nil, err
 	}
 	return &Activity{N: n, W: w, R: r, Submitted: map[string]int{}, Refused: map[string]int{}, LastErr: map[string]string{},
-		inFlight: map[string]int{}, QuaiPerStep: 2, ConvEvery: 4, QiPerStep: 2, QiSent: map[common.Hash]*types.Transaction{}}, nil
+		inFlight: map[string]int{}, QuaiPerStep: 2, ConvEvery: 4, QiPerStep: 2, QiSent: map[common.Hash]*types.Transaction{}, created: map[string]uint64{}}, nil
 }
 
 func (a *Activity) submit(kind string, tx *types.Transaction) bool {
@@ -115,7 +118,7 @@ func (a *Activity) Traffic() {
 	if a.ConvEvery > 0 && a.step%a.ConvEvery == 0 {
 		from := w.Quai[1+r.Intn(len(w.Quai)-1)]
 		to := w.Qi[1+r.Intn(len(w.Qi)-1)].Addr
-		val := new(big.Int).Mul(big.NewInt(1e18), big.NewInt(int64(20+r.Intn(200))))
+		val := new(big.Int).Mul(big.NewInt(1e18), big.NewInt(int64(20000+r.Intn(2000000))))
 		tx, err := w.QuaiTx(from, w.NextNonce(from), &to, val, 200000, price, nil, nil)
 		if err == nil {
 			a.submit("quai-to-qi", tx)
@@ -131,11 +134,37 @@ func (a *Activity) Traffic() {
 		if s, ok := a.inFlight[opKey(u)]; ok && a.step-s < 12 {
 			continue
 		}
-		if u.Denom >= 4 {
+		// ordinary traffic only spends denominations that are never trimmed, so it
+		// cannot meet an output's trim block by accident (TrimRace does that on purpose)
+		if u.Denom > types.MaxTrimDenomination {
 			usable = append(usable, u)
 		}
 	}
 	r.Shuffle(len(usable), func(i, j int) { usable[i], usable[j] = usable[j], usable[i] })
+	if a.TrimRace {
+		// outputs of Qi transactions (lock 0) of a trimmable denomination whose trim block is the next one
+		for _, u := range owned {
+			h, ok := a.created[opKey(u)]
+			depth, trimmable := types.TrimDepths[u.Denom]
+			if !ok || !trimmable || u.Denom < 3 || (u.Lock != nil && u.Lock.Sign() != 0) {
+				continue
+			}
+			if _, busy := a.inFlight[opKey(u)]; busy {
+				continue
+			}
+			// the pending header built now is mined as block zoneNum+1 or, because Settle caches it, zoneNum+2
+			if zoneNum+1 == h+depth || zoneNum+2 == h+depth {
+				kind := "qi-trim-race"
+				if tx, err := a.buildQiSpend([]Utxo{u}, &kind); err == nil {
+					kind = "qi-trim-race"
+					if a.submit(kind, tx) {
+						a.QiSent[tx.Hash()] = tx
+						a.inFlight[opKey(u)] = a.step
+					}
+				}
+			}
+		}
+	}
 	for i := 0; i < a.QiPerStep && len(usable) > 0; i++ {
 		nIn := 1
 		if len(usable) >= 2 && r.Intn(3) == 0 {
@@ -236,5 +265,15 @@ func (a *Activity) buildQiSpend(ins []Utxo, kind *string) (*types.Transaction, e
 func (a *Activity) Step(o MineOpts) (*Mined, error) {
 	a.Traffic()
 	o.Fill = true
-	return a.N.Mine(o)
+	m, err := a.N.Mine(o)
+	if err == nil && m != nil && m.Blocks[2] != nil {
+		for _, tx := range m.Blocks[2].Transactions() {
+			if tx.Type() == types.QiTxType {
+				for i := range tx.TxOut() {
+					a.created[fmt.Sprintf("%x:%d", tx.Hash().Bytes(), i)] = m.Number[2]
+				}
+			}
+		}
+	}
+	return m, err
 }
